@@ -23,7 +23,7 @@ from .. import capyrun as R
 
 RULE = ("random trees: <= 6 local .capy files in <= 3 directories of the working directory + a generated module directory "
         "(<= 5 module files; layouts: siblings, module dir inside cwd, cwd inside module dir) with <= 5 imports per file; "
-        "60% of the trees have only valid imports, 40% contain exactly one invalid import (25 invalid kinds) in a reachable file; "
+        "60% of the trees have only valid imports, 40% contain exactly one invalid import (28 invalid kinds) in a reachable file; "
         "a handful of pinned hand-made trees run in every tier. evaluation = one tree compiled (and, if accepted, linked and run) "
         "and judged; non-trivial = the tree has >= 1 import edge resolved by the model; distinct = distinct signatures "
         "(layout, set of import features among: dotdot, dot, cycle, self, double spelling, #mod, #import into the module dir, "
@@ -55,7 +55,7 @@ DIAG_CLASS = [
 
 INVALID_KINDS = [
     "missing_plain", "missing_dir", "missing_cwdrel", "missing_cwdrel", "missing_isdir",
-    "noncapy_txt", "noncapy_noext", "noncapy_upper", "noncapy_suffix",
+    "noncapy_txt", "noncapy_noext", "noncapy_upper", "noncapy_suffix", "noncapy_nodot", "noncapy_dotm", "noncapy_dotonly",
     "outside_parent", "outside_prefix", "outside_prefix", "outside_prefix", "outside_detour",
     "mod_nomodfile", "mod_nosrc", "mod_absent", "mod_notinsrc", "mod_empty",
     "mod_dash", "mod_slash", "mod_dotdot", "mod_underscore", "mod_dot", "mod_dotslash", "mod_trailing", "mod_space",
@@ -417,7 +417,9 @@ def gen_tree(rng, invalid_kind):
             t.dirs.add(posixpath.join(d, "dd.capy"))
             arg = "dd.capy"
         elif k.startswith("noncapy"):
-            nm = {"noncapy_txt": "x.txt", "noncapy_noext": "x", "noncapy_upper": "x.CAPY", "noncapy_suffix": "x.capy.bak"}[k]
+            # names that merely END in the letters `capy` (no dot, another extension that ends in capy) are not `.capy` files either
+            nm = {"noncapy_txt": "x.txt", "noncapy_noext": "x", "noncapy_upper": "x.CAPY", "noncapy_suffix": "x.capy.bak",
+                  "noncapy_nodot": "helpercapy", "noncapy_dotm": "x.mcapy", "noncapy_dotonly": "xcapy.c"}[k]
             ld = posixpath.dirname(rng.pick(local))
             tgt = t.add(posixpath.join(ld, nm))
             arg = spell(rng, t, f, tgt, style=rng.pick(["plain", "dot", "up"]))
